@@ -389,7 +389,7 @@ func SKinds() []SKind {
 
 			return core.NewSignedSyncMessage(m), nil
 		}})
-	ks = append(ks, SKind{Name: "SyncContributionAndProof", Duty: core.DutyPrepareSyncContribution, Rep: false,
+	ks = append(ks, SKind{Name: "SyncContributionAndProof", Duty: core.DutySyncMessage, Rep: false,
 		New: func(_ *testing.T, slot uint64) (core.SignedData, error) {
 			c := testutil.RandomSyncContributionAndProof()
 			c.Contribution.Slot = eth2p0.Slot(slot)
